@@ -1,14 +1,19 @@
 use std::{
     fmt::{self, Debug, Display},
     str::from_utf8_unchecked,
-    sync::atomic::{AtomicPtr, Ordering},
+    sync::atomic::Ordering,
 };
+
+#[cfg(not(feature = "verif_hooks"))]
+use std::sync::atomic::AtomicPtr;
 
 use faststr::FastStr;
 use ref_cast::RefCast;
 use serde::ser::{SerializeMap, SerializeStruct};
 
 use super::value::HasEsc;
+#[cfg(feature = "verif_hooks")]
+use crate::verif::VAtomicPtr as AtomicPtr;
 use crate::{
     index::Index, input::JsonSlice, prelude::*, serde::Number, JsonType, JsonValueTrait, LazyValue,
     RawNumber, Result,
